@@ -37,12 +37,19 @@ import (
 	"time"
 
 	"github.com/cespare/xxhash/v2"
+	"github.com/wundergraph/astjson"
+
+	"github.com/buger/jsonparser"
 
 	"github.com/wundergraph/graphql-go-tools/v2/pkg/ast"
+	"github.com/wundergraph/graphql-go-tools/v2/pkg/engine/datasource/graphql_datasource"
+	"github.com/wundergraph/graphql-go-tools/v2/pkg/engine/datasource/httpclient"
 	"github.com/wundergraph/graphql-go-tools/v2/pkg/engine/resolve"
 
 	"verif/harness/internal/gate"
 )
+
+const padSlots = 3 // subscriber slots of the trace specification (Trace_Subs cfg: NS)
 
 const padBase = 200 // an event payload is padBase+e bytes long: lets the sub.update.begin hook identify the event
 
@@ -50,6 +57,8 @@ type SubCfg struct {
 	Key  int    `json:"key"`
 	Filt string `json:"filt"`
 	Conn int    `json:"conn"`
+	// Fetch: the response plan has a nested fetch (fake data source = gate "ds.load") that runs for every event
+	Fetch bool `json:"fetch"`
 }
 
 type Step struct {
@@ -62,7 +71,8 @@ type Step struct {
 type Schedule struct {
 	ID    string   `json:"id"`
 	Subs  []SubCfg `json:"subs"`
-	KV    string   `json:"kv"` // how keys differ: "input" (trigger input) or "hdr" (forwarded headers hash)
+	KV    string   `json:"kv"` // how keys differ: "input" (trigger input), "hdr" (forwarded headers hash), "payload" (Context.InitialPayload)
+	FK    string   `json:"fk"` // how an "odd" filter is written: num-static num-var arr-var true-var false-var str-var
 	Start []string `json:"start"`
 	Steps []Step   `json:"steps"`
 	// NoPark: points that are only recorded in this run (a hook that sits inside a lock in the tree under test)
@@ -116,7 +126,7 @@ type run struct {
 	nev      int
 	overlaps atomic.Int64
 	panicMsg atomic.Value
-	solo     func(slot, key, e int) []byte
+	solo     func(slot, key, e int, fetch bool) []byte
 }
 
 // source is the fake SubscriptionDataSource: it hands the updater to the harness.
@@ -156,13 +166,17 @@ func (s source) Start(ctx *resolve.Context, headers http.Header, input []byte, u
 	if cancelled {
 		z = 1
 	}
-	r.ctl.Log("h.start", uint64(slot), ok, map[string]any{"z": z})
+	c := uint64(1)
+	if _, has := ctx.Context().Deadline(); has {
+		c = 0 // the trigger context is shared by all subscribers: it must not carry the creator's request deadline
+	}
+	r.ctl.Log("h.start", uint64(slot), ok, map[string]any{"z": z, "c": c})
 	return err
 }
 
+// HashTriggerInput is the one of the real GraphQL data source: what identifies an upstream subscription is its business.
 func (s source) HashTriggerInput(input []byte, xxh *xxhash.Digest) error {
-	_, err := xxh.Write(input)
-	return err
+	return (&graphql_datasource.SubscriptionSource{}).HashTriggerInput(input, xxh)
 }
 
 type reporter struct {
@@ -180,6 +194,7 @@ type writer struct {
 	r        *run
 	slot     int
 	key      int
+	fetch    bool
 	buf      []byte
 	inside   atomic.Int32
 	msgOwner atomic.Int64 // actor "token" of the goroutine that has a message in progress (first Write .. Flush)
@@ -236,7 +251,7 @@ func (w *writer) Flush() error {
 	key, e := parsePayload(msg)
 	w.r.ctl.At("w.flush.enter", uint64(w.slot), uint64(e), map[string]any{"ov": ovField(w, ov)})
 	c := uint64(0)
-	if key == w.key && bytes.Equal(msg, w.r.solo(w.slot, key, e)) {
+	if key == w.key && bytes.Equal(msg, w.r.solo(w.slot, key, e, w.fetch)) {
 		c = 1
 	}
 	if w.failNext.Swap(false) {
@@ -284,15 +299,22 @@ func (e errWriter) WriteError(ctx *resolve.Context, err error, res *resolve.Grap
 // ---------------------------------------------------------------------------------------------- plans
 
 func triggerInput(kv string, key int) string {
-	if kv == "hdr" {
+	if kv == "hdr" || kv == "payload" {
 		return `{"url":"ws://upstream","body":{"query":"subscription{v}"}}`
 	}
 	return fmt.Sprintf(`{"url":"ws://upstream","body":{"query":"subscription{v(k:%d)}"}}`, key)
 }
 
+func initialPayload(key int) []byte { return []byte(fmt.Sprintf(`{"token":"client-of-key-%d"}`, key)) }
+
+// triggerID: hash(input as the resolver builds it, forwarded-headers hash) with the data source's own input hash
 func triggerID(kv string, key int) uint64 {
 	d := xxhash.New()
-	_, _ = d.Write([]byte(triggerInput(kv, key)))
+	in := []byte(triggerInput(kv, key))
+	if kv == "payload" {
+		in, _ = jsonparser.Set(in, initialPayload(key), "initial_payload")
+	}
+	_ = source{}.HashTriggerInput(in, d)
 	if kv == "hdr" {
 		var b [8]byte
 		binary.LittleEndian.PutUint64(b[:], uint64(key))
@@ -301,7 +323,47 @@ func triggerID(kv string, key int) uint64 {
 	return d.Sum64()
 }
 
-func plan(src resolve.SubscriptionDataSource, slot int, c SubCfg, kv string) *resolve.GraphQLSubscription {
+// nestedDS is the fake subgraph of the nested fetch; every call is the gate "ds.load" of the calling update goroutine.
+type nestedDS struct{ ctl *gate.Controller }
+
+func (d nestedDS) Load(ctx context.Context, headers http.Header, input []byte) ([]byte, error) {
+	d.ctl.At("ds.load", 0, 0, nil)
+	return []byte(`{"data":{"n":"nested"}}`), nil
+}
+
+func (d nestedDS) LoadWithFiles(ctx context.Context, headers http.Header, input []byte, files []*httpclient.FileUpload) ([]byte, error) {
+	return d.Load(ctx, headers, input)
+}
+
+func varSegment(name string) []resolve.TemplateSegment {
+	return []resolve.TemplateSegment{{SegmentType: resolve.VariableSegmentType, VariableKind: resolve.ContextVariableKind,
+		VariableSourcePath: []string{name}, Renderer: resolve.NewPlainVariableRenderer()}}
+}
+
+// oddFilter: "only events with an odd number", written in one of the ways a filter value can be given
+func oddFilter(fk string) *resolve.SubscriptionFilter {
+	static := func(v string) []resolve.TemplateSegment {
+		return []resolve.TemplateSegment{{SegmentType: resolve.StaticSegmentType, Data: []byte(v)}}
+	}
+	field, segs := "par", static("1")
+	switch fk {
+	case "num-var":
+		segs = varSegment("one")
+	case "arr-var":
+		segs = varSegment("odds")
+	case "true-var":
+		field, segs = "todd", varSegment("yes")
+	case "false-var":
+		field, segs = "teven", varSegment("no")
+	case "str-var":
+		field, segs = "sodd", varSegment("word")
+	}
+	return &resolve.SubscriptionFilter{In: &resolve.SubscriptionFieldFilter{FieldPath: []string{field}, Values: []resolve.InputTemplate{{Segments: segs}}}}
+}
+
+const filterVariables = `{"one":1,"odds":[1,3,5],"yes":true,"no":false,"word":"odd"}`
+
+func plan(src resolve.SubscriptionDataSource, ctl *gate.Controller, slot int, c SubCfg, kv, fk string) *resolve.GraphQLSubscription {
 	input := triggerInput(kv, c.Key)
 	sub := &resolve.GraphQLSubscription{
 		Trigger: resolve.GraphQLSubscriptionTrigger{
@@ -323,26 +385,47 @@ func plan(src resolve.SubscriptionDataSource, slot int, c SubCfg, kv string) *re
 		},
 	}
 	if c.Filt == "odd" {
-		sub.Filter = &resolve.SubscriptionFilter{In: &resolve.SubscriptionFieldFilter{
-			FieldPath: []string{"par"},
-			Values:    []resolve.InputTemplate{{Segments: []resolve.TemplateSegment{{SegmentType: resolve.StaticSegmentType, Data: []byte("1")}}}},
-		}}
+		sub.Filter = oddFilter(fk)
+	}
+	if c.Fetch {
+		fin := `{"method":"POST","url":"http://nested","body":{"query":"{n}"}}`
+		sub.Response.Fetches = resolve.Single(&resolve.SingleFetch{
+			FetchConfiguration: resolve.FetchConfiguration{
+				DataSource:     nestedDS{ctl},
+				Input:          fin,
+				PostProcessing: resolve.PostProcessingConfiguration{SelectResponseDataPath: []string{"data"}},
+			},
+			InputTemplate: resolve.InputTemplate{Segments: []resolve.TemplateSegment{{SegmentType: resolve.StaticSegmentType, Data: []byte(fin)}}},
+			Info: &resolve.FetchInfo{DataSourceID: "nested", DataSourceName: "nested", OperationType: ast.OperationTypeQuery,
+				RootFields: []resolve.GraphCoordinate{{TypeName: "Subscription", FieldName: "n"}}},
+		})
+		sub.Response.Data.Fields = append(sub.Response.Data.Fields, &resolve.Field{
+			Name: []byte("n"), Value: &resolve.String{Path: []string{"n"}, Nullable: true}})
 	}
 	return sub
 }
 
 func payload(key, e int) []byte {
-	head := fmt.Sprintf(`{"data":{"v":"k%de%d"},"par":%d,"pad":"`, key, e, e%2)
+	word := map[bool]string{true: "odd", false: "even"}[e%2 == 1]
+	head := fmt.Sprintf(`{"data":{"v":"k%de%d"},"par":%d,"todd":%t,"teven":%t,"sodd":"%s","pad":"`, key, e, e%2, e%2 == 1, e%2 == 0, word)
 	n := padBase + e - len(head) - 2
 	return []byte(head + string(bytes.Repeat([]byte("x"), n)) + `"}`)
 }
 
 func newCtx(parent context.Context, slot int, c SubCfg, kv string) *resolve.Context {
-	rc := resolve.NewContext(context.WithValue(parent, slotKey{}, slot))
+	// every request context has a (far) deadline: the detached trigger context must not inherit it
+	dctx, _ := context.WithDeadline(context.WithValue(parent, slotKey{}, slot), time.Now().Add(6*time.Hour)) //nolint:govet
+	rc := resolve.NewContext(dctx)
 	rc.Request.ID = uint64(slot)
 	rc.ExecutionOptions.SendHeartbeat = true
+	// the nested fetches of two subscribers are identical: without this the second one waits for the first (single flight, C11's subject)
+	rc.ExecutionOptions.DisableSubgraphRequestDeduplication = true
+	rc.Variables = astjson.MustParseBytes([]byte(filterVariables))
 	if kv == "hdr" {
 		rc.SubgraphHeadersBuilder = hdrBuilder{uint64(c.Key)}
+	}
+	if kv == "payload" {
+		rc.InitialPayload = initialPayload(c.Key)
 	}
 	return rc
 }
@@ -359,16 +442,19 @@ func newResolver(ctx context.Context, rep *reporter, ew resolve.AsyncErrorWriter
 
 // ---------------------------------------------------------------------------------------------- solo oracle
 
-type soloKey struct{ slot, key, e int }
+type soloKey struct {
+	slot, key, e int
+	fetch        bool
+}
 
 var soloCache = map[soloKey][]byte{}
 var soloMu sync.Mutex
 
 // soloBytes: what subscriber `slot` receives for event (key,e) when it is the only subscriber of a fresh resolver.
-func soloBytes(slot, key, e int) []byte {
+func soloBytes(slot, key, e int, fetch bool) []byte {
 	soloMu.Lock()
 	defer soloMu.Unlock()
-	k := soloKey{slot, key, e}
+	k := soloKey{slot, key, e, fetch}
 	if b, ok := soloCache[k]; ok {
 		return b
 	}
@@ -385,7 +471,7 @@ func soloBytes(slot, key, e int) []byte {
 	ctl := gate.New()
 	ctl.FreeRun()
 	r := &run{ctl: ctl, inst: map[int]*instance{}, sched: Schedule{Start: []string{"ok", "ok", "ok", "ok"}}}
-	r.solo = func(int, int, int) []byte { return nil }
+	r.solo = func(int, int, int, bool) []byte { return nil }
 	rctx, cancel := context.WithCancel(context.Background())
 	defer func() {
 		cancel()
@@ -396,8 +482,8 @@ func soloBytes(slot, key, e int) []byte {
 	}()
 	res := newResolver(rctx, &reporter{}, errWriter{r})
 	w := &soloWriter{}
-	c := SubCfg{Key: key, Filt: "all", Conn: 1}
-	err := res.AsyncResolveGraphQLSubscription(newCtx(context.Background(), slot, c, "input"), plan(source{r}, slot, c, "input"), w,
+	c := SubCfg{Key: key, Filt: "all", Conn: 1, Fetch: fetch}
+	err := res.AsyncResolveGraphQLSubscription(newCtx(context.Background(), slot, c, "input"), plan(source{r}, ctl, slot, c, "input", "num-static"), w,
 		resolve.SubscriptionIdentifier{ConnectionID: 1, SubscriptionID: int64(slot)})
 	if err != nil {
 		panic(err)
@@ -433,7 +519,7 @@ func (w *soloWriter) Error([]byte)                {}
 
 var parkPoints = map[string]bool{
 	"sub.close.begin": true, "sub.complete.checked": true, "sub.error.checked": true, "sub.hb.begin": true,
-	"sub.werr.begin": true, "sub.update.begin": true, "trig.start.begin": true, "trig.init.found": true,
+	"sub.werr.begin": true, "sub.update.begin": true, "ds.load": true, "trig.start.begin": true, "trig.init.found": true,
 	"trig.done.begin": true, "shutdown.begin": true, "w.flush.enter": true,
 }
 
@@ -491,7 +577,7 @@ func runSchedule(s Schedule, evw *bufio.Writer) (res Result) {
 	}
 	for i, c := range s.Subs {
 		for e := 1; e <= nupd; e++ {
-			soloBytes(i+1, c.Key, e)
+			soloBytes(i+1, c.Key, e, c.Fetch)
 		}
 	}
 	// resolve.VerifHook is shared by all checks: only the points of the subscription machinery are ours,
@@ -510,7 +596,7 @@ func runSchedule(s Schedule, evw *bufio.Writer) (res Result) {
 	src := source{r}
 	writers := make([]*writer, n)
 	for i, c := range s.Subs {
-		writers[i] = &writer{r: r, slot: i + 1, key: c.Key}
+		writers[i] = &writer{r: r, slot: i + 1, key: c.Key, fetch: c.Fetch}
 	}
 
 	// harness actors: clients and sources wait for commands
@@ -538,7 +624,7 @@ func runSchedule(s Schedule, evw *bufio.Writer) (res Result) {
 				switch <-ch {
 				case "sub":
 					ctl.Log("h.cmd", 1, uint64(slot), nil)
-					err := resolver.AsyncResolveGraphQLSubscription(newCtx(context.Background(), slot, c, s.KV), plan(src, slot, c, s.KV), writers[slot-1], sid)
+					err := resolver.AsyncResolveGraphQLSubscription(newCtx(context.Background(), slot, c, s.KV), plan(src, ctl, slot, c, s.KV, s.FK), writers[slot-1], sid)
 					e := uint64(0)
 					if err != nil {
 						e = 1
@@ -600,6 +686,24 @@ func runSchedule(s Schedule, evw *bufio.Writer) (res Result) {
 					case "done":
 						ctl.Log("h.cmd", 8, uint64(slot), nil)
 						u.Done()
+					case "cs1", "cs2", "cs3":
+						t := int(cmd[2] - '0')
+						if t < 1 || t > len(s.Subs) {
+							return
+						}
+						target := resolve.SubscriptionIdentifier{ConnectionID: resolve.ConnectionID(s.Subs[t-1].Conn), SubscriptionID: int64(t)}
+						mine := false
+						for _, id := range u.Subscriptions() {
+							mine = mine || id == target
+						}
+						if !mine {
+							// a source closes subscriptions its updater reports; if the code took another (equally legal) turn than
+							// the model predicted and the subscriber is not on this trigger, the command is not issued
+							ctl.Idle()
+							continue
+						}
+						ctl.Log("h.cmd", 10, uint64(slot), map[string]any{"z": uint64(t)})
+						u.CloseSubscription(target)
 					default:
 						return
 					}
@@ -618,8 +722,9 @@ func runSchedule(s Schedule, evw *bufio.Writer) (res Result) {
 	filt := make([]string, n)
 	conn := make([]int, n)
 	start := make([]string, n)
+	fetch := make([]bool, n)
 	for i, c := range s.Subs {
-		keys[i], filt[i], conn[i] = c.Key, c.Filt, c.Conn
+		keys[i], filt[i], conn[i], fetch[i] = c.Key, c.Filt, c.Conn, c.Fetch
 		start[i] = "ok"
 		if i < len(s.Start) {
 			start[i] = s.Start[i]
@@ -636,7 +741,11 @@ func runSchedule(s Schedule, evw *bufio.Writer) (res Result) {
 		}
 		return m
 	}
-	emit(mk("reset", map[string]any{"id": s.ID, "n": n, "key": keys, "filt": filt, "conn": conn, "start": start}))
+	// the trace specification is instantiated with padSlots subscriber slots: unused slots are padded (they never act)
+	for len(keys) < padSlots {
+		keys, filt, conn, start, fetch = append(keys, 1), append(filt, "all"), append(conn, 1), append(start, "ok"), append(fetch, false)
+	}
+	emit(mk("reset", map[string]any{"id": s.ID, "n": n, "key": keys, "filt": filt, "conn": conn, "start": start, "fetch": fetch}))
 	cursor := 0
 	flush := func() {
 		evs := ctl.Events()
@@ -648,6 +757,8 @@ func runSchedule(s Schedule, evw *bufio.Writer) (res Result) {
 				x = uint64(keyOf[e.A])
 			case "sub.update.begin", "sub.update.end":
 				y = e.B - padBase
+			case "ds.load":
+				x, y = uint64(e.Actor.I), uint64(e.Actor.J)
 			case "upd.leave":
 				x, y = uint64(keyOf[e.A]), 0
 			case "trig.cancel":
